@@ -9,8 +9,14 @@ Record call := {
   k_be : nat;               (* backend index *)
   k_inv : Z;                (* when the stub was entered *)
   k_dl : option Z;          (* ctx.Deadline() of the context it was invoked with *)
-  k_done_after : bool       (* ctx.Err() != nil right after the pipeline returned (for an attempt that
+  k_done_after : bool;      (* ctx.Err() != nil right after the pipeline returned (for an attempt that
                                started later: at its invocation) *)
+  k_depth : option nat;     (* number of contexts between the one the stub was invoked with (included) and
+                               the one the harness handed in (excluded), found by walking up the parent
+                               links of the standard library's context types; None: the walk met a type
+                               it does not know *)
+  k_chain_done : bool       (* every one of those contexts reports Err() != nil at that same moment: the
+                               intermediate WithTimeout frames of the stages too, not only the leaf *)
 }.
 
 Record obs := {
@@ -64,7 +70,7 @@ Section Spec.
     0 <= min_inv calls /\ 0 <= min_inv (calls_of (k_be k) calls) /\
     (needs_deadline c (k_be k) = true ->
        exists x, k_dl k = Some x /\ bound_ok c (min_inv calls) (min_inv (calls_of (k_be k) calls)) (k_be k) x) /\
-    (derived c (k_be k) = true -> k_done_after k = true).
+    (derived c (k_be k) = true -> k_done_after k = true /\ k_chain_done k = true).
 
   Definition Spec (c : config) (slack : Z) (o : obs) : Prop :=
     o_returned o = true /\ o_released o = false /\ o_leaked o = O /\
@@ -86,7 +92,7 @@ Section Spec.
      | Some x => bound_b c (min_inv calls) (min_inv (calls_of (k_be k) calls)) (k_be k) x
      | None => false
      end) &&
-    (negb (derived c (k_be k)) || k_done_after k).
+    (negb (derived c (k_be k)) || (k_done_after k && k_chain_done k)).
 
   Definition mem_nat (x : nat) (l : list nat) : bool := existsb (Nat.eqb x) l.
 
